@@ -84,7 +84,7 @@ CHECKS = {
     "XSIM": dict(level="model_checking", clauses={"cross-names", "cross-rows", "cross-order", "accept", "export-error", "names", "rows", "order", "group"},
                  phases=dict(quick=[dict(profile="mixsim", num=3200)], thorough=[dict(profile="mixsim")])),
     # development aid (not registered): VERIF_DEV_PHASES='[{"profile": "joinz4"}]' ./check XDEV
-    "XDEV": dict(level="model_checking", clauses=GEN_CLAUSES_SPEC | CROSS | {"errclass", "accept", "export-error", "target", "meta", "getname", "equiv", "dtype-static", "dtype-export"},
+    "XDEV": dict(level="model_checking", clauses=GEN_CLAUSES_SPEC | CROSS | {"errclass", "accept", "export-error", "target", "meta", "getname", "equiv", "dtype-static", "dtype-export", "lca", "lca-internal", "chain", "impl-internal", "dialect-internal", "dialect-noselect", "dialect-nondet"},
                  phases=dict(quick=json.loads(os.environ.get("VERIF_DEV_PHASES", "[]")), thorough=[])),
     "C01": dict(
         level="model_checking",
@@ -103,8 +103,8 @@ CHECKS = {
     ),
     "C07": dict(
         level="model_checking",
-        clauses=GEN_CLAUSES_SPEC | {"errclass"},
-        phases=dict(quick=[dict(kind="argspace", verbs=["union"]), dict(profile="union2"), dict(profile="unionh4"), dict(profile="unionc5"), dict(profile="unions4"), dict(profile="unionj4")], thorough=[dict(kind="argspace", verbs=["union"], ucols=["a", "b", "c", "d"]), dict(profile="union2"), dict(profile="union3"), dict(profile="unionh4"), dict(profile="unionc5"), dict(profile="unions4"), dict(profile="unionj4")]),
+        clauses=GEN_CLAUSES_SPEC | {"errclass", "lca", "lca-internal"},
+        phases=dict(quick=[dict(kind="argspace", verbs=["union"]), dict(kind="lca", max_n=2), dict(profile="union2"), dict(profile="union2", opts=dict(alt=True)), dict(profile="unionh4"), dict(profile="unionc5"), dict(profile="unions4"), dict(profile="unionj4")], thorough=[dict(kind="argspace", verbs=["union"], ucols=["a", "b", "c", "d"]), dict(kind="lca", max_n=2), dict(profile="union2"), dict(profile="union2", opts=dict(alt=True)), dict(profile="union3"), dict(profile="unionh4"), dict(profile="unionc5"), dict(profile="unions4"), dict(profile="unionj4")]),
     ),
     "C08": dict(
         level="model_checking",
@@ -115,8 +115,8 @@ CHECKS = {
     ),
     "C02": dict(
         level="model_checking",
-        clauses=GEN_CLAUSES_SPEC | {"errclass"},
-        phases=dict(quick=[dict(kind="proofs", canary=False), dict(kind="verbnames"), dict(kind="argspace", verbs=["slices"]), dict(kind="argspace", verbs=["arrange", "mutate"], amax=2), dict(profile="core2"), dict(profile="imm3", opts=dict(pool=True)), dict(profile="subq4"), dict(profile="wins3"), dict(profile="tall2")],
+        clauses=GEN_CLAUSES_SPEC | {"errclass", "chain"},
+        phases=dict(quick=[dict(kind="proofs", canary=False), dict(kind="verbnames"), dict(kind="argspace", verbs=["slices"]), dict(kind="argspace", verbs=["arrange", "mutate"], amax=2), dict(profile="core2", opts=dict(chain=True)), dict(profile="imm3", opts=dict(pool=True)), dict(profile="subq4"), dict(profile="wins3"), dict(profile="tall2")],
                     thorough=[dict(profile="subq5"), dict(kind="argspace", verbs=["slices"], ns=[0, 1, 2, 3, 6], ks=[0, 1, 2, 4, 7], sizes=[0, 1, 4, 6]), dict(kind="argspace", verbs=["arrange", "mutate"], amax=3), dict(kind="proofs", canary=False), dict(kind="verbnames", cols=["a", "b", "c", "x"], keys=["a", "b", "c", "x", "z"], vals=["a", "b", "c", "x", "y"]), dict(profile="core2"), dict(profile="core3"), dict(profile="imm4", opts=dict(pool=True)), dict(profile="wins4"), dict(profile="tall2"), dict(profile="reroot3")]),
     ),
     "C03": dict(
@@ -133,7 +133,8 @@ CHECKS = {
     "C18": dict(
         level="model_checking",
         clauses={"rows", "order", "names", "accept", "export-error", "cross-rows"},
-        phases=dict(quick=[dict(profile="str1"), dict(profile="str1", opts=dict(alt=True))], thorough=[dict(profile="str1"), dict(profile="str1", opts=dict(alt=True))]),
+        phases=dict(quick=[dict(profile="str1"), dict(profile="str1", opts=dict(alt=True)), dict(kind="argspace", verbs=["arrange"], amax=2)],
+                    thorough=[dict(profile="str1"), dict(profile="str1", opts=dict(alt=True)), dict(kind="argspace", verbs=["arrange"], amax=3), dict(profile="fn1"), dict(profile="cast1")]),
     ),
     "C04": dict(
         level="model_checking",
@@ -144,8 +145,8 @@ CHECKS = {
     "C05": dict(
         level="model_checking",
         clauses=GEN_CLAUSES_SPEC,
-        phases=dict(quick=[dict(kind="argspace", verbs=["win"], wmax=3), dict(profile="win2"), dict(profile="win2", opts=dict(alt=True)), dict(profile="wins3")],
-                    thorough=[dict(kind="argspace", verbs=["win"], wmax=4), dict(profile="win2"), dict(profile="win3"), dict(profile="wins4")]),
+        phases=dict(quick=[dict(kind="argspace", verbs=["win"], wmax=3), dict(profile="win2"), dict(profile="win2", opts=dict(alt=True)), dict(profile="win2", opts=dict(pool=True)), dict(profile="wins3")],
+                    thorough=[dict(kind="argspace", verbs=["win"], wmax=4), dict(profile="win2"), dict(profile="win2", opts=dict(pool=True)), dict(profile="win3"), dict(profile="wins4")]),
     ),
     "C09": dict(
         level="model_checking",
@@ -165,14 +166,14 @@ CHECKS = {
     "C19": dict(
         level="exploration",
         clauses={"dialect-internal", "dialect-noselect", "dialect-nondet", "impl-internal"},
-        phases=dict(quick=[dict(kind="impls", max_arity=2),
+        phases=dict(quick=[dict(kind="impls", max_arity=2), dict(kind="flatjoin", pre=2),
                            dict(profile="core2", backends=("sqlite", "postgres", "mssql"), opts=dict(buildq=True)),
                            dict(profile="agg3", backends=("sqlite", "postgres", "mssql"), opts=dict(buildq=True)),
                            dict(profile="wins3", backends=("sqlite", "postgres", "mssql"), opts=dict(buildq=True)),
                            dict(profile="join2", backends=("sqlite", "postgres", "mssql"), opts=dict(buildq=True)),
                            dict(profile="union2", backends=("sqlite", "postgres", "mssql"), opts=dict(buildq=True)),
                            dict(profile="fn1", backends=("sqlite", "postgres", "mssql"), opts=dict(buildq=True))],
-                    thorough=[dict(profile="wins3", backends=("sqlite", "postgres", "mssql"), opts=dict(buildq=True)), dict(kind="impls", max_arity=2),
+                    thorough=[dict(profile="wins3", backends=("sqlite", "postgres", "mssql"), opts=dict(buildq=True)), dict(kind="impls", max_arity=2), dict(kind="flatjoin", pre=2),
                               dict(profile="core3", backends=("sqlite", "postgres", "mssql"), opts=dict(buildq=True)),
                               dict(profile="agg3", backends=("sqlite", "postgres", "mssql"), opts=dict(buildq=True)),
                               dict(profile="win3", backends=("sqlite", "postgres", "mssql"), opts=dict(buildq=True)),
@@ -192,16 +193,16 @@ CHECKS = {
     ),
     "C13": dict(
         level="model_checking",
-        clauses={"resolve", "resolve-internal", "resolve-order", "sized-uniform", "const-accepted", "const-result"},
-        phases=dict(quick=[dict(kind="resolve", max_arity=2)], thorough=[dict(kind="resolve", max_arity=3, timeout=6000)]),
+        clauses={"resolve", "resolve-internal", "resolve-order", "sized-uniform", "const-accepted", "const-result", "lca", "lca-internal"},
+        phases=dict(quick=[dict(kind="resolve", max_arity=2), dict(kind="resolve", max_arity=3, ops=["shift", "clip"]), dict(kind="lca", max_n=2)], thorough=[dict(kind="resolve", max_arity=3, timeout=6000), dict(kind="lca", max_n=3)]),
         rule="every (operator, argument-type tuple) over the 48-type universe up to the arity bound: TLC evaluates the order-free definition on the "
              "extracted catalogue, the code's Operator.return_type / ColFn construction outcome is compared tuple by tuple; distinct = distinct tuples",
     ),
     "C14": dict(
         level="model_checking",
-        clauses={"errclass", "accept", "export-error"}, export_error_backends={"polars"},
-        phases=dict(quick=[dict(kind="verbnames"), dict(profile="err2"), dict(profile="join2"), dict(profile="union2")],
-                    thorough=[dict(kind="verbnames", cols=["a", "b", "c", "x"], keys=["a", "b", "c", "x", "z"], vals=["a", "b", "c", "x", "y"]), dict(profile="err3"), dict(profile="join2"), dict(profile="union3")]),
+        clauses={"errclass", "accept", "export-error", "lca", "lca-internal"}, export_error_backends={"polars"},
+        phases=dict(quick=[dict(kind="verbnames"), dict(kind="lca", max_n=2), dict(profile="err2"), dict(profile="join2"), dict(profile="union2")],
+                    thorough=[dict(kind="verbnames", cols=["a", "b", "c", "x"], keys=["a", "b", "c", "x", "z"], vals=["a", "b", "c", "x", "y"]), dict(kind="lca", max_n=3), dict(profile="err3"), dict(profile="join2"), dict(profile="union3")]),
     ),
     "C15": dict(
         level="model_checking",
@@ -212,13 +213,13 @@ CHECKS = {
     "C16": dict(
         level="model_checking",
         clauses=GEN_CLAUSES_SPEC | {"errclass", "getname"},
-        phases=dict(quick=[dict(profile="reroot3"), dict(profile="rerootagg5"), dict(profile="collectg4"), dict(profile="hidsub4")],
-                    thorough=[dict(profile="reroot3"), dict(profile="reroot4"), dict(profile="rerootagg5"), dict(profile="collectg4"), dict(profile="hidsub4")]),
+        phases=dict(quick=[dict(profile="reroot3"), dict(profile="rerootagg5"), dict(profile="collectg4"), dict(profile="hidsub4"), dict(profile="joinz4")],
+                    thorough=[dict(profile="reroot3"), dict(profile="reroot4"), dict(profile="rerootagg5"), dict(profile="collectg4"), dict(profile="hidsub4"), dict(profile="joinz4")]),
     ),
     "C10": dict(
         level="model_checking",
-        clauses={"immut-fp", "immut-data", "immut-query", "immut-source", "rows", "order", "names", "accept", "group"},
-        phases=dict(quick=[dict(profile="imm3", opts=dict(immut=True)), dict(profile="core2", opts=dict(immut=True)),
+        clauses={"immut-fp", "immut-data", "immut-query", "immut-source", "rows", "order", "names", "accept", "group", "chain"},
+        phases=dict(quick=[dict(profile="imm3", opts=dict(immut=True, chain=True)), dict(profile="core2", opts=dict(immut=True)),
                            dict(profile="subq4", opts=dict(immut=True)), dict(profile="join2", opts=dict(immut=True))],
                     thorough=[dict(profile="core2", opts=dict(immut=True)), dict(profile="imm4", opts=dict(immut=True)), dict(profile="agg3", opts=dict(immut=True)), dict(profile="subq5", opts=dict(immut=True)),
                               dict(profile="wins3", opts=dict(immut=True)), dict(profile="join2", opts=dict(immut=True))]),
